@@ -20,6 +20,10 @@ import (
 type SchemaCache struct {
 	mu       sync.Mutex
 	packages map[string]*Package
+
+	// building lists the refs registered by the Schema call in progress,
+	// guarded by mu.
+	building []*RefSchema
 }
 
 func NewSchemaCache() *SchemaCache {
@@ -32,7 +36,28 @@ func NewSchemaCache() *SchemaCache {
 func (sc *SchemaCache) Schema(src protoreflect.MessageDescriptor) (RootSchema, error) {
 	sc.mu.Lock()
 	defer sc.mu.Unlock()
-	return sc.schema(src)
+
+	// Forget everything a failed build registered. Otherwise the half-built
+	// refs stay in the cache: later calls for the same message return a nil
+	// schema without an error, and other messages quietly link to refs which
+	// will never be filled in.
+	complete := false
+	sc.building = nil
+	defer func() {
+		if !complete {
+			for _, ref := range sc.building {
+				delete(ref.Package.Schemas, ref.Schema)
+			}
+		}
+		sc.building = nil
+	}()
+
+	built, err := sc.schema(src)
+	if err != nil {
+		return nil, err
+	}
+	complete = true
+	return built, nil
 }
 
 // schema is Schema without the lock. Building a schema recurses into refTo and
@@ -55,6 +80,7 @@ func (sc *SchemaCache) schema(src protoreflect.MessageDescriptor) (RootSchema, e
 		Schema:  nameInPackage,
 	}
 	schemaPackage.Schemas[nameInPackage] = placeholder
+	sc.building = append(sc.building, placeholder)
 
 	msgOptions := proto.GetExtension(src.Options(), ext_j5pb.E_Message).(*ext_j5pb.MessageOptions)
 	isOneofWrapper := isOneofWrapper(src, msgOptions)
@@ -85,6 +111,7 @@ func (sc *SchemaCache) refTo(pkg, schema string) (*RefSchema, bool) {
 		Schema:  schema,
 	}
 	refPackage.Schemas[schema] = refSchema
+	sc.building = append(sc.building, refSchema)
 
 	return refSchema, false
 }
